@@ -148,9 +148,9 @@ class BaseVersion(object):
     """
 
     re_valid_version = re.compile(
-        r"^((?P<epoch>\d+):)?"
+        r"^((?P<epoch>[0-9]+):)?"
         "(?P<upstream_version>[A-Za-z0-9.+:~-]+?)"
-        "(-(?P<debian_revision>[A-Za-z0-9+.~]+))?$")
+        "(-(?P<debian_revision>[A-Za-z0-9+.~]+))?\\Z")
     magic_attrs = (
         'full_version', 'epoch', 'upstream_version',
         'debian_revision', 'debian_version')
